@@ -175,6 +175,10 @@ def _apply_faults(faults, idx, x, val):
         if f["val"] == "raise":
             # the user function fails with an exception of its own
             raise ArithmeticError("injected failure of a user function")
+        if f["val"] == "raise_stop":
+            # ... or with StopIteration (an exhausted iterator inside the
+            # user's code): still the user's failure, not a callback request
+            raise StopIteration("injected: user function ran out of data")
         fv = _FVAL[f["val"]]
         if np.ndim(val) == 0:
             val = fv
